@@ -13,6 +13,9 @@
 //	keys        malformed and foreign public-key strings
 //	alpha-sweep EVERY alpha length 0..300 (thorough 0..1100) x formats: proof, H, Verify, beta against the reference
 //	returned-slices  overwrite every returned slice / every input after the call and re-observe (no aliasing); nil = empty alpha
+//	fixtures    every key made with the library = RFC 8032 (a library failure is a violation, not a harness error)
+//	class-keys  keys chosen by reference-side class of the clamped scalar (8 top-byte ranges incl. top digit +8,
+//	            recoding events) x alphas x formats: Prove = reference, Verify, ProofToHash
 //	memory      keys x alphas x formats x argument layouts: every byte-slice argument as a sub-slice of a larger
 //	            buffer (spare capacity, arguments adjacent in one buffer in every order, two keys back to back):
 //	            results independent of the layout, caller's memory bit-identical after every call
@@ -95,15 +98,91 @@ func keyAlphabet(c *mc.Ctx) []keyT {
 	}
 	var out []keyT
 	for _, s := range seeds {
-		sk := ed25519.NewKeyFromSeed(s.b)
-		k := keyT{desc: s.desc, ref: refvrf.DeriveKey(s.b), sk: sk, pk: ed25519.PublicKey(append([]byte{}, sk[32:]...))}
-		if !bytes.Equal(k.ref.PK, k.pk) {
-			// key generation belongs to C02; a disagreement here would make every later comparison meaningless
-			panic(harnessErr(fmt.Sprintf("public key of %s: library %x reference %x", s.desc, k.pk, k.ref.PK)))
-		}
-		out = append(out, k)
+		out = append(out, mkKey(s))
 	}
 	return out
+}
+
+// mkKey builds the library key and the reference key for a seed.  They are compared in the
+// "fixtures" sub-space (a library failure there is a violation, never a harness error).
+func mkKey(s named) keyT {
+	sk := ed25519.NewKeyFromSeed(s.b)
+	return keyT{desc: s.desc, ref: refvrf.DeriveKey(s.b), sk: sk, pk: ed25519.PublicKey(append([]byte{}, sk[32:]...))}
+}
+
+// scalarClasses: reference-side classes of the clamped secret scalar x = clamp(SHA-512(seed)[:32]) that a
+// scalar multiplication x*H (Gamma) or x*B can distinguish: the range of its top byte (0x40..0x7f in eight
+// ranges; 0x78..0x7f is the only one whose signed radix-16 recoding ends in the un-recentred top digit +8)
+// and the recoding events (a digit -8, a digit +7, a nibble 7 that becomes -8 through a carry, a digit 0).
+func scalarClasses(x *big.Int) []string {
+	b := ref.LE32(x)
+	cls := []string{fmt.Sprintf("key-class/top-byte-0x%02x-0x%02x", b[31]&^7, b[31]|7)}
+	carry := 0
+	seen := map[string]bool{}
+	for i := 0; i < 64; i++ {
+		nib := int(b[i/2]>>(4*uint(i%2))) & 15
+		d := nib + carry
+		carry = 0
+		if i < 63 && d >= 8 {
+			d -= 16
+			carry = 1
+		}
+		switch {
+		case i == 63:
+			seen[fmt.Sprintf("key-class/digit63=%+d", d)] = true
+		case d == -8 && nib == 7:
+			seen["key-class/nibble 7 + carry-in -> -8"] = true
+		case d == -8:
+			seen["key-class/digit -8"] = true
+		case d == 7:
+			seen["key-class/digit +7"] = true
+		case d == 0:
+			seen["key-class/digit 0"] = true
+		}
+	}
+	for k := range seen {
+		cls = append(cls, k)
+	}
+	sort.Strings(cls)
+	return cls
+}
+
+// classKeys: deterministic search over mc.Bytes(seed, "c15-key", i, 32), i = 0, 1, ..., taking a seed while
+// one of its classes still needs members (reference side only).
+func classKeys(c *mc.Ctx) ([]keyT, map[string]int) {
+	need := map[string]int{"key-class/digit -8": 2, "key-class/digit +7": 2, "key-class/nibble 7 + carry-in -> -8": 2, "key-class/digit 0": 2, "key-class/digit63=+8": 2}
+	for t := 0x40; t < 0x80; t += 8 {
+		need[fmt.Sprintf("key-class/top-byte-0x%02x-0x%02x", t, t+7)] = c.Pick(2, 4)
+	}
+	count := map[string]int{}
+	var out []keyT
+	for i := 0; i < 4096; i++ {
+		missing := false
+		for cl, n := range need {
+			if count[cl] < n {
+				missing = true
+			}
+		}
+		if !missing {
+			break
+		}
+		sd := mc.Bytes(c.Seed, "c15-key", i, 32)
+		cls := scalarClasses(ref.ClampedScalarFromSeed(sd))
+		useful := false
+		for _, cl := range cls {
+			if count[cl] < need[cl] {
+				useful = true
+			}
+		}
+		if !useful {
+			continue
+		}
+		for _, cl := range cls {
+			count[cl]++
+		}
+		out = append(out, mkKey(named{sd, fmt.Sprintf("seed=class#%d[top byte 0x%02x]", i, ref.LE32(ref.ClampedScalarFromSeed(sd))[31])}))
+	}
+	return out, count
 }
 
 func alphaAlphabet(c *mc.Ctx) []named {
@@ -171,9 +250,30 @@ func leInt(b []byte) *big.Int { return ref.FromLE(b) }
 
 func run(c *mc.Ctx) {
 	keys := keyAlphabet(c)
+	ckeys, classCount := classKeys(c)
 	alphas := alphaAlphabet(c)
 	c.Rep.Extra["keys"] = len(keys)
+	c.Rep.Extra["class_keys"] = len(ckeys)
 	c.Rep.Extra["alphas"] = len(alphas)
+	for cl, n := range classCount {
+		c.Rep.Classes[cl] = int64(n) // reference-side membership counts of the class keys (guarded below)
+	}
+	// Fixtures: every key of the harness is made with the library (NewKeyFromSeed) and with the reference.  A
+	// disagreement is a violation of its own (the proof of such a key cannot verify under the matching public
+	// key), reported here; the remaining sub-spaces, which take the keys for granted, are then not run.
+	allKeys := append(append([]keyT{}, keys...), ckeys...)
+	seq(c, "fixtures", len(allKeys), func(w *mc.W, i int) {
+		k := allKeys[i]
+		w.Eval("fixtures/key", true)
+		if !bytes.Equal(k.pk, k.ref.PK) || len(k.sk) != 64 || !bytes.Equal(k.sk[:32], k.ref.Seed) {
+			w.Fail("ed25519.NewKeyFromSeed/public-key", fmt.Sprintf("%s (seed %x, clamped scalar classes %v): library public key %x, RFC 8032 gives %x", k.desc, k.ref.Seed, scalarClasses(k.ref.X), k.pk, k.ref.PK),
+				map[string]string{"seed": hexs(k.ref.Seed)})
+		}
+	})
+	if c.Rep.NViolations > 0 && !c.Replaying() {
+		c.Cap("a key fixture made with the library disagrees with RFC 8032 (reported as a violation); the sub-spaces that build on the keys were not run")
+		return
+	}
 	timing := map[string]float64{}
 	timed := func(name string, f func()) {
 		t := time.Now()
@@ -189,6 +289,7 @@ func run(c *mc.Ctx) {
 		c.Rep.Extra["wall_s_by_group"] = timing
 		return
 	}
+	timed("class-keys", func() { runProve2(c, ckeys, alphas) })
 	timed("prove", func() { runProve(c, keys, alphas) })
 	timed("randomized", func() { runRandomized(c, keys, alphas) })
 	timed("flips", func() { runFlips(c, keys, alphas) })
@@ -212,6 +313,15 @@ func run(c *mc.Ctx) {
 	} {
 		c.Require(cl, 1)
 	}
+	for _, cl := range []string{"key-class/digit -8", "key-class/digit +7", "key-class/nibble 7 + carry-in -> -8", "key-class/digit 0"} {
+		c.Require(cl, 2)
+	}
+	for t := 0x40; t < 0x80; t += 8 {
+		c.Require(fmt.Sprintf("key-class/top-byte-0x%02x-0x%02x", t, t+7), 2)
+	}
+	c.Require("key-class/digit63=+8", 2)
+	c.Require("class-keys/rfc9381", 16)
+	c.Require("class-keys/draft10", 16)
 	// every non-trivial torsion component must have produced an accepted proof
 	for t := 1; t < 8; t++ {
 		c.Require(fmt.Sprintf("torsion/accepted/gamma+T%d", t), 1)
